@@ -56,7 +56,11 @@ class MinCountConstraintComponent(ConstraintComponent):
                 "https://www.w3.org/TR/shacl/#MinCountConstraintComponent",
             )
         self.min_count = min_count[0]
-        if not (isinstance(self.min_count, Literal) and self.min_count.datatype == XSD_integer):
+        if not (
+            isinstance(self.min_count, Literal)
+            and self.min_count.datatype == XSD_integer
+            and isinstance(self.min_count.value, int)
+        ):
             raise ConstraintLoadError(
                 "MinCountConstraintComponent sh:minCount must be a literal with datatype xsd:integer.",
                 "https://www.w3.org/TR/shacl/#MinCountConstraintComponent",
@@ -146,7 +150,11 @@ class MaxCountConstraintComponent(ConstraintComponent):
                 "https://www.w3.org/TR/shacl/#MaxCountConstraintComponent",
             )
         self.max_count = max_count[0]
-        if not (isinstance(self.max_count, Literal) and self.max_count.datatype == XSD_integer):
+        if not (
+            isinstance(self.max_count, Literal)
+            and self.max_count.datatype == XSD_integer
+            and isinstance(self.max_count.value, int)
+        ):
             raise ConstraintLoadError(
                 "MaxCountConstraintComponent sh:maxCount must be a literal with datatype xsd:integer.",
                 "https://www.w3.org/TR/shacl/#MaxCountConstraintComponent",
